@@ -9,7 +9,7 @@ it walks the AST, so ombott's rule parser is part of what is checked.
 """
 import re
 
-REGEXES = [r'[a-c]+', r'\d{2}', r'a|ab', r'[^/]*x', r'(a|b)c', 'é+', r'[a-z]+?(?=l)', r'\w+\.\w+', r'[^/]*',
+REGEXES = [r'[a-z]*', r'\d*', r'[a-c]+', r'\d{2}', r'a|ab', r'[^/]*x', r'(a|b)c', 'é+', r'[a-z]+?(?=l)', r'\w+\.\w+', r'[^/]*',
            r'-?\d+', r'-?\d+(\.\d+)?', '.+$',
            # context-sensitive at their start: a filter sees the rest of the path as a string of its own ("matched once at the cursor")
            r'^[a-c]+', r'\b\d+', r'(?<!/)[a-z]+', r'\B7+', r'\A\w+', r'(?<![a-z])x+', r'^\d+$']       # the last three are textually the masks of the int / float / path filters
@@ -79,7 +79,9 @@ def match(cast, s, allow_empty, trace=None):
                     return None
                 val = m.group()
                 j = i + m.end()
-            if j == i and not allow_empty:
+            if j == i and not allow_empty and (rx is None or j == n):
+                # the statement is silent about a *plain* wildcard capturing nothing, and about any wildcard that is left with nothing
+                # at the end of the path; a filter that accepts the empty text in the middle of a path has accepted it
                 return None
             if filt == 'int':
                 val = int(val)
@@ -259,6 +261,7 @@ def sample_value(rng, filt, arg):
     if filt == 'path':
         return rng.choice(['p/q', 'x', 'a/end/b', 'a//b', 'é/1', 'a/\r', 'end', '/'])
     return rng.choice({
+        r'[a-z]*': ['', 'ab', '', 'x1'], r'\d*': ['', '12', '', 'a'],
         r'[a-c]+': ['a', 'abc', 'cab', 'abd'], r'\d{2}': ['12', '007', '1'], r'a|ab': ['a', 'ab'],
         r'[^/]*x': ['x', 'aax', 'a/x'], r'(a|b)c': ['ac', 'bc', 'cc'], 'é+': ['é', 'ééé', 'e'],
         r'[a-z]+?(?=l)': ['al', 'profil', 'l'], r'\w+\.\w+': ['a.b', 'ab.1', 'a.'], r'[^/]*': ['', 'abc', 'a b'],
